@@ -7,6 +7,7 @@ import XonshVerif.Model.Macro
 import XonshVerif.Model.WithMacro
 import XonshVerif.Model.Span
 import XonshVerif.Model.Concat
+import XonshVerif.Model.ProcMacro
 import XonshVerif.Model.Helpers
 import XonshVerif.Model.Pipeline
 import XonshVerif.Model.Lines
@@ -78,6 +79,14 @@ def handleConcat (fs : List String) : String :=
   | .node (.fmt _) => "bad-node"
   | .joinedStr vs a e => s!"J|{encVals vs}|{encPos a}|{encPos e}"
   | .mixError => "mixerr"
+
+/-- `procmacro <spacechars> piece*` : `proc_macro_arg` -> the stripped text -/
+def handleProcMacro (fs : List String) : String :=
+  match fs with
+  | sc :: pieces =>
+    let E : Rx.Env := { wordChars := [], spaceChars := decStr sc }
+    encStr (ProcMacro.procMacroArg E.isSpace (pieces.map decStr))
+  | _ => "bad-request"
 
 /-- `macro <spacechars> tok*` -/
 def handleMacro (fs : List String) : String :=
